@@ -144,7 +144,8 @@ def arrays_for(case, dtype=np.float64):
     return [np.asarray(vmod(case, p, values.make(p, tuple(s), salt=7 * i + case.get("salt", 0))), dtype=dtype)
             for i, (s, p) in enumerate(zip(case["shapes"], pats))]
 
-VMODS = {"tiny": lambda a: a * 1e-4, "large": lambda a: a * 1e3, "offset": lambda a: a + 1e5}
+VMODS = {"tiny": lambda a: a * 1e-4, "large": lambda a: a * 1e3, "offset": lambda a: a + 1e5,
+         "zeros": lambda a: a * 0.0, "ones": lambda a: a * 0.0 + 1.0}
 
 def vmod(case, pat, a):
     """value-scale variant of a case (thorough tier): applied to 'generic' operands only"""
